@@ -554,10 +554,13 @@ typedef struct ectx_s {
 } ectx_t;
 
 static void ev(const ectx_t *X, const char *key, const char *fmt, ...) __attribute__((format(printf, 3, 4)));
+static int ev_in_case = 0;     /* a broken codec fails hundreds of variants per case: print the first few */
+
 static void ev(const ectx_t *X, const char *key, const char *fmt, ...) {
   char msg[3000];
   va_list ap;
   const ledit_t *L = &X->g->L;
+  if (ev_in_case++ >= 6) { vh_count("c17_violations_not_printed", 1); return; }
   va_start(ap, fmt);
   vsnprintf(msg, sizeof(msg), fmt, ap);
   va_end(ap);
@@ -836,6 +839,7 @@ static void run_edit_case(int caseidx) {
   vr_seed(&r, g_seed * 1000003ULL + (uint64_t)caseidx * 7919ULL + 17);
   vh_set_context("fmtmon_edit mode=edit seed=%llu case=%d", (unsigned long long)g_seed, caseidx);
   gen_edit(&r, &g, caseidx);
+  ev_in_case = 0;
   memset(&X, 0, sizeof(X));
   X.g = &g;
 
@@ -1284,9 +1288,12 @@ static void msnap_free(msnap_t *s) {
 }
 
 static void rv(rp_t *R, const char *key, const char *why, const char *fmt, ...) __attribute__((format(printf, 4, 5)));
+static int rv_in_case = 0;
+
 static void rv(rp_t *R, const char *key, const char *why, const char *fmt, ...) {
   char msg[3500];
   va_list ap;
+  if (rv_in_case++ >= 8) { vh_count("c17_violations_not_printed", 1); return; }
   va_start(ap, fmt);
   vsnprintf(msg, sizeof(msg), fmt, ap);
   va_end(ap);
@@ -1507,7 +1514,7 @@ static int fileent_same(const rc_fileent_t *a, const rc_fileent_t *b) {
          bytes_eq(a->largest, a->llen, b->largest, b->llen);
 }
 
-/* 1 = same file set and compact pointers; else first difference */
+/* 1 = same file set and compact pointers; 0 = file sets differ, -1 = compact pointers differ (d = first difference) */
 static int msnap_same(const msnap_t *a, const msnap_t *b, char *d, size_t dn) {
   size_t i;
   int l;
@@ -1526,7 +1533,7 @@ static int msnap_same(const msnap_t *a, const msnap_t *b, char *d, size_t dn) {
     if (a->has_cp[l] != b->has_cp[l] || (a->has_cp[l] && !bytes_eq(a->cp[l], a->cplen[l], b->cp[l], b->cplen[l]))) {
       snprintf(d, dn, "compact pointer of level %d: %s'%s' vs %s'%s'", l, a->has_cp[l] ? "" : "(none)", a->has_cp[l] ? vh_esc(a->cp[l], a->cplen[l]) : "",
                b->has_cp[l] ? "" : "(none)", b->has_cp[l] ? vh_esc(b->cp[l], b->cplen[l]) : "");
-      return 0;
+      return -1;
     }
   }
   return 1;
@@ -1588,7 +1595,7 @@ static int rp_reopen(rp_t *R, int with_flush) {
   /* closing writes no metadata: what CURRENT names now is what was there at the quiescent point */
   if (ok && load_manifest(R, "after close", NULL, &closed)) {
     if (closed.manifest_number != before.manifest_number || closed.manifest_bytes != before.manifest_bytes ||
-        !msnap_same(&before, &closed, d, sizeof(d)))
+        msnap_same(&before, &closed, d, sizeof(d)) != 1)
       rv(R, "manifest-changed-by-close", "after close", "MANIFEST-%06llu (%zu bytes) before close, MANIFEST-%06llu (%zu bytes) after: %s",
          (unsigned long long)before.manifest_number, before.manifest_bytes, (unsigned long long)closed.manifest_number, closed.manifest_bytes,
          closed.manifest_number == before.manifest_number && closed.manifest_bytes == before.manifest_bytes ? d : "different file");
@@ -1622,9 +1629,10 @@ static int rp_reopen(rp_t *R, int with_flush) {
       if (act1 != act0) {
         vh_count("c17_reopen_comparisons_skipped", 1);     /* the engine compacted at open: a legitimate change */
       } else {
+        int same = msnap_same(&before, &after, d, sizeof(d));
         vh_count("c17_reopen_comparisons", 1);
-        if (!msnap_same(&before, &after, d, sizeof(d)))
-          rv(R, "fileset-changed-across-reopen", "after reopen", "old MANIFEST-%06llu (%zu edits) vs %s MANIFEST-%06llu (%zu edits) with no compaction in between: %s",
+        if (same != 1)
+          rv(R, same == 0 ? "fileset-changed-across-reopen" : "compact-pointers-changed-across-reopen", "after reopen", "old MANIFEST-%06llu (%zu edits) vs %s MANIFEST-%06llu (%zu edits) with no compaction in between: %s",
              (unsigned long long)before.manifest_number, before.m.nedits, after.manifest_number == before.manifest_number ? "reused" : "fresh",
              (unsigned long long)after.manifest_number, after.m.nedits, d);
       }
@@ -1643,6 +1651,7 @@ static void run_replay_case(int caseidx, const char *base) {
   double t0 = vh_now();
 
   g_case = caseidx;
+  rv_in_case = 0;
   R->caseidx = caseidx;
   vr_seed(&R->r, g_seed * 1000003ULL + (uint64_t)caseidx * 7919ULL + 43);
   vh_set_context("fmtmon_edit mode=replay seed=%llu case=%d", (unsigned long long)g_seed, caseidx);
@@ -1739,6 +1748,8 @@ int main(int argc, char **argv) {
     for (i = first; i < first + count; i++) run_varint_case(i, g_mode[6] == 'q');
   } else if (!strcmp(g_mode, "replay")) {
     vh_mkdir_p(base);
+    vh_count("c17_reopen_comparisons", 0);
+    vh_count("c17_reopen_comparisons_skipped", 0);
     for (i = first; i < first + count; i++) run_replay_case(i, base);
   } else {
     fprintf(stderr, "unknown mode %s (edit|varint|varintq|replay)\n", g_mode);
